@@ -39,7 +39,8 @@ Qed.
 
 Lemma inst_validate_plain : forall f x q, lvalidate f x <> Err (EValidation q).
 Proof.
-  intros f x q. unfold lvalidate. destruct (lvalidate_kind f x) eqn:E; try discriminate.
+  intros f x q. unfold lvalidate. destruct (pyval_eqb x cfg_object); [destruct (l_kind f); discriminate|].
+  unfold lvalidate_data. destruct (lvalidate_kind f x) eqn:E; try discriminate.
   - destruct x; try discriminate; destruct (l_reject f); try discriminate; destruct (pyval_eqb a p); discriminate.
   - intro H. inversion H; subst. eapply inst_validate_kind_plain; eauto.
 Qed.
@@ -52,6 +53,20 @@ Theorem inst_rejection_shape : forall vt x w pre c fs dyn k rl w' c' e,
   set_value leaf lvalidate lto_python ldefault l_callable lflag (vrun vt) x w pre c fs dyn k rl = (w', c', OErr e) ->
   e = EAttribute \/ verr_below (path_join pre k) e.
 Proof. intros vt. apply rejection_shape; [apply inst_validate_plain | apply inst_to_python_plain]. Qed.
+
+(* ... and for configuration objects handed over as they are *)
+Theorem inst_obj_rejection_shape : forall vt o w pre c dyn vs fs w' c' e,
+  apply_cop leaf lvalidate lto_python ldefault l_callable lflag (vrun vt) w pre c dyn vs fs o = (w', c', OErr e) ->
+  match o with
+  | CSetObj k _ => e = EAttribute \/ e = EValidation (path_join pre k)
+  | CAppendObj k _ | CInsertObj k _ _ =>
+      exists l, dget k (c_data c) = Some (VList l) /\ verr_below (path_index (path_join pre k) (N.of_nat (length l))) e
+  | CSetIdxObj k i _ =>
+      exists l, dget k (c_data c) = Some (VList l) /\
+                ((e = EIndex /\ (length l <= i)%nat) \/ verr_below (path_index (path_join pre k) (N.of_nat (length l))) e)
+  | _ => True
+  end.
+Proof. intros vt. apply obj_rejection_shape. apply inst_validate_plain. Qed.
 
 (* ---- a small schema used by the examples: n = IntField(min=1,max=100,default=3); s = StringField(min_len=2, required);
         sub.a = IntField(max=20, default=5) ---- *)
@@ -162,7 +177,8 @@ Qed.
 
 Theorem inst_validate_sound : forall f x v, lvalidate f x = Ok v -> inst_meets f v.
 Proof.
-  intros f x v. unfold lvalidate. destruct (lvalidate_kind f x) eqn:E; try discriminate.
+  intros f x v. unfold lvalidate. destruct (pyval_eqb x cfg_object); [destruct (l_kind f); discriminate|].
+  unfold lvalidate_data. destruct (lvalidate_kind f x) eqn:E; try discriminate.
   intro H. apply (inst_validate_kind_sound f x).
   destruct x; try (inversion H; subst; exact E); destruct (l_reject f); try (inversion H; subst; exact E);
     destruct (pyval_eqb a p); try discriminate; inversion H; subst; exact E.
@@ -170,11 +186,75 @@ Qed.
 
 (* every state reachable from a fresh configuration by any history is well-formed, given valid declared defaults *)
 Theorem inst_reachable_wf : forall vt ops w dyn vs fs,
-  (forall f n, inst_meets f (ldefault f n)) -> ok_fields leaf fs ->
+  (forall f n, inst_meets f (ldefault f n)) -> ok_fields leaf fs -> objs_ok leaf inst_meets fs ops ->
   wf_cfg leaf inst_meets fs
     (run leaf lvalidate lto_python ldefault l_callable lflag (vrun vt) ops
          (fst (build_cfg leaf ldefault l_callable w fs)) (snd (build_cfg leaf ldefault l_callable w fs)) dyn vs fs).
-Proof. intros. apply reachable_wf; [apply inst_validate_sound | assumption | assumption]. Qed.
+Proof. intros. apply reachable_wf; [apply inst_validate_sound | assumption | assumption | assumption]. Qed.
+
+(* ... including histories that build configuration objects on the side (from the schema of the slot they go to) and
+   hand them over by assignment, append, item assignment or insert: no condition on the objects is left *)
+Theorem inst_reachable_x_wf : forall vt ops w dyn vs fs,
+  (forall f n, inst_meets f (ldefault f n)) -> ok_fields leaf fs ->
+  xobjs_ok leaf inst_meets fs ops ->
+  wf_cfg leaf inst_meets fs
+    (run_x leaf lvalidate lto_python ldefault l_callable lflag (vrun vt) ops
+         (fst (build_cfg leaf ldefault l_callable w fs)) (snd (build_cfg leaf ldefault l_callable w fs)) dyn vs fs).
+Proof. intros. apply reachable_x_wf; [apply inst_validate_sound | assumption | assumption | assumption]. Qed.
 
 Example ex_defaults_valid : forall n, inst_meets (mk (LInt (Some 1%Z) (Some 100%Z)) false (PInt 3)) (ldefault (mk (LInt (Some 1%Z) (Some 100%Z)) false (PInt 3)) n).
 Proof. intro n. right. exists 3%Z. split; reflexivity. Qed.
+
+(* ---- configuration objects ---- *)
+(* a schema with a sub-configuration holding a required field without default, and a list of such configurations *)
+Definition ex_need : list (str * node leaf) := [(sa "need", NLeaf (mk (LInt None None) true PNone)); (sa "t", NLeaf (mk (LStr None None false false) false (PStr (sa "ok"))))].
+Definition ex_fs_obj : list (str * node leaf) :=
+  [(sa "n", NLeaf (mk (LInt (Some 1%Z) (Some 100%Z)) false (PInt 3)));
+   (sa "sub", NSub false [] ex_need);
+   (sa "items", NCfgList false [] ex_need)].
+Definition ex_obj_root : cfg := snd (build_cfg leaf ldefault l_callable w0 ex_fs_obj).
+Definition ex_obj_w : world := fst (build_cfg leaf ldefault l_callable w0 ex_fs_obj).
+Definition ex_obj_do (w : world) (c : cfg) (ps : list pstep) (x : xop leaf) :=
+  at_path_x leaf lvalidate lto_python ldefault l_callable lflag (vrun []) ps w [] c false [] ex_fs_obj x.
+(* an object of the slot's schema whose required field was never set / was set *)
+Definition ex_unset : xop leaf := XObj RSet (sa "sub") false [] ex_need [].
+Definition ex_set (r : objroute) (k : str) : xop leaf := XObj r k false [] ex_need [([], CSet (sa "need") (PInt 4))].
+
+(* C11 / C06: what the code does with `cfg.sub = other` when `other` fails validation -- the object is ACCEPTED
+   unvalidated (the stored object is `other` itself, identity included; the key becomes user-defined), and the next
+   whole-configuration validation of the parent reports the unset required field: the check happens at the next
+   load / validate, which is when C11 demands it *)
+Example set_obj_unvalidated_refuted :
+  let '(w1, c1, o1) := ex_obj_do ex_obj_w ex_obj_root [] ex_unset in
+  let '(_, c2, o2) := ex_obj_do w1 c1 [] (XOp (CValidate false)) in
+  o1 = OOk /\ defined c1 (sa "sub") = true
+  /\ dget (sa "sub") (c_data c1) = Some (VCfg (snd (detached leaf lvalidate lto_python ldefault l_callable lflag (vrun []) ex_obj_w false [] ex_need [])))
+  /\ o2 = OErr (EValidation (sa "sub.need")) /\ c2 = c1.
+Proof. vm_compute. repeat split; reflexivity. Qed.
+
+(* ... whereas the same object offered to a list of configurations is validated on the spot and refused, the error
+   naming the position it would have had; a valid one is taken, and is then the very object that was handed over *)
+Example append_obj_rejected :
+  let '(w1, c1, _) := ex_obj_do ex_obj_w ex_obj_root [] (XOp (CSet (sa "items") (PList 0 []))) in
+  let '(w2, c2, o2) := ex_obj_do w1 c1 [] (XObj RAppend (sa "items") false [] ex_need []) in
+  let '(w3, c3, o3) := ex_obj_do w2 c2 [] (ex_set RAppend (sa "items")) in
+  let '(w4, c4, o4) := ex_obj_do w3 c3 [] (XObj (RInsert 0) (sa "items") false [] ex_need []) in
+  o2 = OErr (EValidation (sa "items[0].need")) /\ c2 = c1
+  /\ o3 = OOk /\ dget (sa "items") (c_data c3) = Some (VList [snd (detached leaf lvalidate lto_python ldefault l_callable lflag (vrun []) w2 false [] ex_need [([], CSet (sa "need") (PInt 4))])])
+  /\ o4 = OErr (EValidation (sa "items[1].need")) /\ c4 = c3.
+Proof. vm_compute. repeat split; reflexivity. Qed.
+
+(* a configuration object is not a value for a leaf field or for a list of configurations, nor for an undeclared key *)
+Example set_obj_wrong_slot :
+  snd (ex_obj_do ex_obj_w ex_obj_root [] (ex_set RSet (sa "n"))) = OErr (EValidation (sa "n"))
+  /\ snd (ex_obj_do ex_obj_w ex_obj_root [] (ex_set RSet (sa "items"))) = OErr (EValidation (sa "items"))
+  /\ snd (ex_obj_do ex_obj_w ex_obj_root [] (ex_set RSet (sa "nokey"))) = OErr EAttribute.
+Proof. vm_compute. repeat split; reflexivity. Qed.
+
+(* the side condition of the C01 theorems over configuration objects is satisfiable, and met by the objects above *)
+Example ex_xobjs_ok :
+  xobjs_ok leaf inst_meets ex_fs_obj
+    [([], ex_unset); ([], ex_set RAppend (sa "items")); ([], ex_set RSet (sa "n")); ([PKey (sa "sub")], XOp (CSet (sa "need") (PInt 1)))].
+Proof.
+  unfold xobjs_ok. repeat constructor; cbn; try exact I; try reflexivity.
+Qed.
